@@ -62,7 +62,7 @@ def plan(tier):
     rules = [r for r in RULES if r != "none"]
     if tier == "quick":
         return ["none", "none"] + rules
-    return ["none"] * 6 + rules * 12
+    return ["none"] * 6 + rules * 10
 
 
 # ---- scope tree -----------------------------------------------------------------------------------
